@@ -429,6 +429,41 @@ namespace
                 }
               continue;
             }
+          if (k == "near" || k == "lin")   // relative to a saved reply: within tolerance / a linear map of it
+            {
+              const std::string ref = pre + e["ref"].GetString();
+              const std::vector<double> *r = lookup(ref);
+              if (!r) { mismatch(k, "reference '" + ref + "' not recorded (harness)"); continue; }
+              const long refat = e.HasMember("refat") ? e["refat"].GetInt64() : 0;
+              const double rel = e.HasMember("rel") ? eval(e["rel"]) : 0., abs_ = e.HasMember("abs") ? eval(e["abs"]) : 0.;
+              std::vector<double> want;
+              if (k == "near")
+                {
+                  const long n = e.HasMember("n") ? e["n"].GetInt64() : static_cast<long>(r->size()) - refat;
+                  if (refat + n > static_cast<long>(r->size())) { mismatch(k, "reference block does not fit", at); continue; }
+                  want.assign(r->begin() + refat, r->begin() + refat + n);
+                }
+              else
+                for (auto &row : e["m"].GetArray())
+                  {
+                    double acc = 0;
+                    for (rapidjson::SizeType j = 0; j < row.Size(); ++j)
+                      {
+                        if (refat + static_cast<long>(j) >= static_cast<long>(r->size())) { acc = std::nan(""); break; }
+                        acc += eval(row[j]) * (*r)[refat + j];
+                      }
+                    want.push_back(acc);
+                  }
+              if (at + want.size() > out.size()) { mismatch(k, "expected values do not fit the reply", at); continue; }
+              for (size_t i = 0; i < want.size(); ++i)
+                {
+                  ++stats.values;
+                  const double g = out[at+i], w = want[i];
+                  if (!(std::fabs(g - w) <= abs_ + rel *std::max(std::fabs(g), std::fabs(w))))
+                    { mismatch(k, "value differs from what the specification derives from " + ref, at + static_cast<long>(i), fmt(g), fmt(w)); break; }
+                }
+              continue;
+            }
           if (k == "between")
             {
               const double lo = eval(e["lo"]), hi = eval(e["hi"]);
@@ -604,6 +639,16 @@ namespace
           if (cur_op == "defdoc") global_docs[s["name"].GetString()] = write_doc(s["wb"], owner, s["name"].GetString());
           else if (cur_op == "deftargets") global_targets[s["name"].GetString()] = dump(s["targets"]);
           else if (cur_op == "create") do_create(s, owner);
+          else if (cur_op == "mkdir") { mkdir(s["path"].GetString(), 0777); }
+          else if (cur_op == "exists")
+            {
+              struct stat st;
+              const bool ex = stat(s["path"].GetString(), &st) == 0;
+              ++stats.checks; ++stats.by_check["exists"];
+              if (ex != s["want"].GetBool())
+                mismatch("exists", std::string("file ") + s["path"].GetString() + (ex ? " exists" : " does not exist"), -1, ex ? "exists" : "missing", s["want"].GetBool() ? "exists" : "missing");
+              if (ex && s.HasMember("remove") && s["remove"].GetBool()) unlink(s["path"].GetString());
+            }
           else if (cur_op == "release") do_release(s);
           else if (cur_op == "q") do_query(s);
           else if (cur_op == "size") do_size(s);
@@ -633,6 +678,12 @@ int main(int argc, char **argv)
       else if (a == "--timeout") timeout_s = static_cast<unsigned int>(std::atoi(argv[i+1]));
       else if (a == "--dump") dump_saves = std::atoi(argv[i+1]) != 0;
     }
+  {
+    // private working directory: relative output directories of create_world land here
+    const std::string wd = tmpdir + "/cwd" + std::to_string(getpid());
+    mkdir(wd.c_str(), 0777);
+    if (chdir(wd.c_str()) != 0) { std::cerr << "cannot chdir to " << wd << "\n"; return 2; }
+  }
   std::signal(SIGALRM, on_alarm);
   std::set_terminate(on_terminate);
   std::ifstream in(argv[1]);
